@@ -135,6 +135,9 @@ def g3(x, /, y, *more, k, z=2, **extra):
 def g4(*, only_kw=0):
     return ('g4', only_kw)
 
+def g5(x=0, y=1, /, w=2, *, z=3):
+    return ('g5', x, y, w, z)
+
 def ident(*a, **k):
     return a[-1] if a else None
 
@@ -213,6 +216,18 @@ STATEMENTS = [
     'return "sep".join(*{va}, **{vk})',
     'return functools.partial(*{va}, **{vk})',
     'return functools.partial(g2, **{vk})',
+    'return g(**{vk})',
+    'return g(*{va})',
+    'return g2(**{vk})',
+    'return g3(*{va}, k=1)',
+    'return g3(1, 2, k=3, **{vk})',
+    'return g5(**{vk})',
+    'return g5(*{va})',
+    'return g5(1, **{vk})',
+    'return "abc".strip(**{vk})',
+    'return int(**{vk})',
+    'return sorted(*{va})',
+    'return sorted([], **{vk})',
     # nested definitions with every kind of parameter
     'def nested1(p, *, kwreq):\n    return g(*{va}, **{vk})\nreturn nested1(1, kwreq=2)',
     'r0 = lambda p, *, kwreq: g(*{va}, **{vk})',
@@ -239,6 +254,13 @@ PARAMS = [
     ('a0, b0=2, *rest, k0=3, **kw', 'rest', 'kw'),
     ('a0, /, b0, *args, **kwargs', 'args', 'kwargs'),
     ('a0: int, *args: str, **kwargs: float', 'args', 'kwargs'),
+    # only one star: the other kind of argument cannot be forwarded at all, so what the callee
+    # still offers there must not leak into the result (narrowing)
+    ('a0, **kwargs', None, 'kwargs'),
+    ('a0, *args', 'args', None),
+    ('a0, b0=1, /, **kw', None, 'kw'),
+    ('*args, k0=3', 'args', None),
+    ('**kwargs', None, 'kwargs'),
 ]
 
 WHOLE = [
@@ -417,7 +439,9 @@ def gen_construct(ch):
     hi = ch.draw(len(HEADERS), 'header')
     params, va, vk = PARAMS[ch.draw(len(PARAMS), 'params')]
     nst = 1 + ch.draw(3, 'n-statements')
-    sts = [ch.draw(len(STATEMENTS), 'statement') for _ in range(nst)]
+    usable = [i for i, st in enumerate(STATEMENTS)
+              if (va is not None or '{va}' not in st) and (vk is not None or '{vk}' not in st)]
+    sts = [usable[ch.draw(len(usable), 'statement')] for _ in range(nst)]
     body = ''
     for si in sts:
         body += STATEMENTS[si].format(va=va, vk=vk) + '\n'
@@ -441,7 +465,7 @@ def gen_construct(ch):
                 source=src, subjects=subjects, tags={'construct'})
 
 
-GEN_TEMPLATES = ['wraps', 'wraps_annot', 'sigattr', 'fwd', 'meth', 'mod', 'deco', 'asforged', 'comb', 'builtin']
+GEN_TEMPLATES = ['wraps', 'wraps_annot', 'sigattr', 'fwd', 'meth', 'mod', 'deco', 'asforged', 'comb', 'builtin', 'instdep']
 
 
 def draw_gen_spec(ch, cfg):
